@@ -771,6 +771,13 @@ def main(ctx, replay):
         if len(samples) < 3 and out.get("killed") and not probs:
             samples.append({"workload": w, "crash_at": n, "kill_label": out.get("kill_label", ""),
                             "responses": [r["status"] for r in out["steps"]], "recovered": [(m["route"], m["state"]) for m in out.get("listing", [])]})
+    # acknowledged = stored also when the store is busy: an enqueue arriving while another process holds the write lock either fails or is
+    # in the queue afterwards (white-box, lib/twostores.py two-stores-busy; the real binary cannot be made to meet a lock deterministically)
+    hbin, hlog = C.go_build_harness(ctx)
+    if hbin is None:
+        raise C.HarnessBuildFailed(hlog)
+    from lib import twostores
+    busy_cov = twostores.run_busy(ctx, {"hbin": hbin})
     conc = concurrent_fanout(hk, root, port0 + 960, seconds=1.2 if ctx.tier == "quick" else 8.0)
     for key, msg in conc["problems"][:20]:
         C.report(ctx, key, msg, {"kind": "schedule", "scenario": "two clients posting to the 3-target fan-out route, max_depth 5 reject, one client cancelling queued messages",
@@ -778,6 +785,7 @@ def main(ctx, replay):
     evaluations += conc["requests"]
     cov = C.proof_coverage(info, "C01")
     cov["concurrent_fanout"] = {k: conc[k] for k in ("requests", "accepted", "refused")}
+    cov.update(busy_cov)
     cov.update({
         "evaluations": evaluations,
         "distinct_nontrivial": len(nontrivial),
